@@ -598,6 +598,13 @@ func c14Prefix(w *World, r *Result, tainted map[ssa.Value]bool) {
 
 func c14State(w *World, r *Result) {
 	rule := "R-C14-state"
+	nglob := GlobalStateRule(w, r, rule)
+	r.Analysed["library_globals"] = nglob
+	c14TranspileState(w, r, rule)
+}
+
+// GlobalStateRule: no package-level variable of the library is written after initialisation.
+func GlobalStateRule(w *World, r *Result, rule string) int {
 	nglob := 0
 	for _, role := range libRoles {
 		sp := w.SSA[role]
@@ -648,7 +655,10 @@ func c14State(w *World, r *Result) {
 			}
 		}
 	}
-	r.Analysed["library_globals"] = nglob
+	return nglob
+}
+
+func c14TranspileState(w *World, r *Result, rule string) {
 	// Transpile: converter field assigned from the argument before any use; parser created inside
 	for _, fn := range w.Funcs("transpiler") {
 		if fn.Name() != "Transpile" || fn.Signature.Recv() == nil {
